@@ -930,11 +930,13 @@ tpt_loop(tpt_p tpt) {
 			}
 			if (0 != (EPOLLERR & epev.events)) { /* Try to get error code. */
 				ev.flags |= TP_F_ERROR;
-				ev.fflags = errno;
+				ev.fflags = 0; /* Not errno: it is from some older call. */
 				optlen = sizeof(int);
 				if (0 == getsockopt((int)tp_udata->ident,
 				    SOL_SOCKET, SO_ERROR, &itm, &optlen)) {
 					ev.fflags = itm;
+				} else if (ENOTSOCK == errno) {
+					ev.fflags = EPIPE; /* Pipe / fifo: other end is closed. */
 				}
 				if (0 == ev.fflags) {
 					ev.fflags = EINVAL;
